@@ -82,16 +82,17 @@ CHECKS = {
              "__call__ / assign_fields on any number of instances sharing one tree): co-present fields never overlap and stay "
              "inside the bit field, fields are wide enough for every accepted value, read-back and mask = union (plain, per tag, "
              "per field; tags closed under requirements; UnknownTagError iff no present field carries the tag), distinct "
-             "complete assignments give non-intersecting key/mask pairs, overlapping / overflowing / zero-length definitions "
+             "complete assignments give non-intersecting key/mask pairs (both for every reachable laid-out state, i.e. also "
+             "for instances created after the layout), overlapping / overflowing / zero-length definitions "
              "are rejected, accepted explicit positions are never moved, refused calls/definitions leave no trace; completeness "
              "proved under the boolean guard `exclusive_children` and REFUTED without it (two known findings) and for the code as "
-             "found. The scan bound and range test are re-extracted from bitfield.py on every run (the model is parameterised by "
-             "them) and a fail-closed ast inventory pins the shape of every modelled method, what public methods return "
+             "found. The scan bound, the range test and the automatic-length formula (int.bit_length = the model's bitlen) are "
+             "re-extracted from bitfield.py on every run (the model is parameterised by / the proofs require them) and a fail-closed ast inventory pins the shape of every modelled method, what public methods return "
              "(copies, never internal objects) and the tag-normalisation / validate-then-record statements. Verified layout "
              "checker evaluated in Coq on the real object; exact correspondence on histories incl. brute-forced complete "
              "assignments; independent oracle (aliasing of caller-supplied sets/iterators, mutated return values, int identity).",
         ref="4 C08", technique="Coq proof (reachability invariant over op histories, verified layout checker) + vm_compute correspondence on histories",
-        note=TB + " Auto-length float formula int(log(v,2))+1 is modelled as bit length (values < 2^47); checked never narrower by correspondence."),
+        note=TB + " Automatic length is int.bit_length since fix b55359e (re-extracted and measured against the code up to 2^64 on every run)."),
     "C02": dict(
         text="Universal theorems about Gallina models of the placers: the sequential scan is sound, terminating, raises only "
              "the two documented errors and is complete under the property's premise for ANY vertex order covering the "
